@@ -90,11 +90,52 @@ func init() {
 	)
 }
 
+// range rules: the in-range state of a rule is state of the EXECUTION (SharedProgram: interp[i].open) -- executions
+// that end while a range is open (input exhausted, exit, a range that never closes beside one that does), so that
+// anything an execution leaves behind would show in the next one
+func init() {
+	menu = append(menu,
+		source{name: "range-open-at-end", src: `$1 == "begin", $1 == "end" { print "in:", $0 } END { print NR }`, input: "header\nbegin\nbody\n"},
+		source{name: "range-exit-inside", src: `NR == 2, NR == 4 { n++; if (NR == 3) exit n } { print "rec", NR, n + 0 }`, input: "1\n2\n3\n4\n5\n"},
+		source{name: "range-two-rules", src: `/a/, /b/ { print "ab:" $0 } /c/, /nomatch/ { print "c:" $0 } NR == 1, NR == 1 { print "one:" $0 }`, input: "x\na\nc\nb\nd\n"},
+		source{name: "range-in-function-state", src: `function inr() { return k++ > 0 } inr(), 0 { print "r", NR }`, input: "p\nq\nr\n"},
+	)
+}
+
+// fmtIDs: sources whose executions get their OWN number formats (Config.Vars OFMT / CONVFMT: private state of the
+// interpreter, like the command string) and convert non-integer numbers; execution number k of a trace runs with
+// variant vk = the k-th pair of fmtPairs and must produce what a single execution with THAT pair produces.
+var fmtIDs = map[string]int{"formats-per-execution": 4, "formats-per-execution-records": 4}
+var fmtPairs = [][2]string{{"%.2f", "%.4f"}, {"%.3g", "%.1f"}, {"%g", "%.8g"}, {"%.5e", "%G"}}
+
+func init() {
+	menu = append(menu,
+		// OFMT and CONVFMT set by the program, different from the default and from each other
+		source{name: "formats-ofmt-convfmt", src: `BEGIN { OFMT = "%.2f"; CONVFMT = "%.4f" } { x = $1 / 7; s = x ""; print x, s; t = t s " " } END { print t; print NR / 3, (NR / 3) "" }`,
+			input: "1\n22\n333\n4.5\n1e3\n"},
+		// ... and given to every execution as its own variables
+		source{name: "formats-per-execution", src: `BEGIN { for (i = 1; i <= 40; i++) { x = i / 7 + 100; s = x ""; print x, s } }`},
+		source{name: "formats-per-execution-records", src: `{ x = $1 / 3; arr[x] = NR; print x, (x "") } END { n = 0; for (k in arr) n++; print n, 2 / 3, (2 / 3) "" }`,
+			input: "1\n2\n4\n5\n7\n0.5\n1e-3\n"},
+	)
+}
+
 func varsOf(s *source, k int) []string {
 	if shellIDs[s.name] > 0 {
 		return []string{"id", fmt.Sprint(101 + k)}
 	}
+	if n := fmtIDs[s.name]; n > 0 {
+		return []string{"OFMT", fmtPairs[k%n][0], "CONVFMT", fmtPairs[k%n][1]}
+	}
 	return nil
+}
+
+// privateVariants: the number of different sets of private variables the executions of a source cycle through
+func privateVariants(s *source) int {
+	if n := shellIDs[s.name]; n > 0 {
+		return n
+	}
+	return fmtIDs[s.name]
 }
 
 // runOnce: one execution through the named interface; k selects the private variables of the execution (varsOf)
@@ -158,8 +199,8 @@ func recordOne(emit func(any), s *source, rounds int) error {
 	if nv < 1 {
 		nv = 1
 	}
-	if shellIDs[s.name] > 0 {
-		nv = shellIDs[s.name]
+	if privateVariants(s) > 0 {
+		nv = privateVariants(s)
 	}
 	setVariant := func(k int) {
 		if s.variant != nil {
@@ -191,7 +232,7 @@ func recordOne(emit func(any), s *source, rounds int) error {
 	}
 	// the variant (private variables) of goroutine i: its own command string for sources that start commands
 	concVariant := func(i int) int {
-		if shellIDs[s.name] > 0 {
+		if privateVariants(s) > 0 {
 			return i % nv
 		}
 		return 0
